@@ -90,6 +90,63 @@ func c15E2EOnce(c *Ctx, rep int) {
 	}
 	c.Ev.Count("e2e_udp_flood_admitted", int64(admitted))
 	c.Ev.Count("e2e_udp_flood_refused", int64(refused))
+	// ---- stream floods: 80 pipelined queries on one connection, each from its own /24. Every query is
+	// answered (served or REFUSED) with a well-formed frame on that connection, REFUSED ones are not
+	// forwarded, and the admitted ones respect the bucket.
+	for si, kind := range []string{"tcp", "gnet", "tls"} {
+		ip := fmt.Sprintf("127.%d.%d.1", oct, 30+si)
+		tc := b.ProxyTLS
+		if kind != "tls" {
+			tc = nil
+		}
+		sc, err := dnsclient.DialStream(ip, b.L[kind], tc)
+		if err != nil {
+			c.Inconclusive("dial " + kind + ": " + err.Error())
+			continue
+		}
+		ts := time.Now()
+		const nS = 80
+		for i := 0; i < nS; i++ {
+			sc.SendFrame(mkQuery(uint16(i+1), fmt.Sprintf("ok-sf%d%sr%d.pipe.test.", i, kind, rep), dns.TypeA, dns.ClassINET, false))
+		}
+		sc.WaitFrames(nS, 5*time.Second)
+		win := time.Since(ts)
+		sAdm, sRef, sBad := 0, 0, 0
+		for _, f := range sc.Frames() {
+			m := new(dns.Msg)
+			c.Ev.Eval(1)
+			if m.Unpack(f.Data) != nil || len(m.Question) != 1 {
+				sBad++
+				continue
+			}
+			switch m.Rcode {
+			case dns.RcodeRefused:
+				sRef++
+				if forwarded(m.Question[0].Name) {
+					c.Violation("e2e:refused-but-forwarded:"+kind, kind+" query "+m.Question[0].Name+" was answered REFUSED by the limiter but reached the upstream", map[string]any{"name": m.Question[0].Name})
+				}
+			case dns.RcodeSuccess:
+				sAdm++
+			}
+		}
+		_, trailing, cerr := sc.State()
+		sc.Close()
+		cs := map[string]any{"listener": kind, "client": ip, "admitted": sAdm, "refused": sRef, "undecodable": sBad, "trailing_bytes": len(trailing), "conn_error": fmt.Sprint(cerr)}
+		switch {
+		case sBad > 0 || len(trailing) > 0:
+			c.Violation("e2e:refusal-malformed:"+kind, fmt.Sprintf("%s flood: %d undecodable frames, %d stray bytes on the connection (admitted %d, REFUSED %d, connection error %v)", kind, sBad, len(trailing), sAdm, sRef, cerr), cs)
+		case sAdm+sRef < nS:
+			c.Violation("e2e:refused-query-dropped:"+kind, fmt.Sprintf("%s flood: %d of %d pipelined queries got a response (admitted %d, REFUSED %d, connection error %v): a query refused by the limiter must be answered REFUSED", kind, sAdm+sRef, nS, sAdm, sRef, cerr), cs)
+		case sRef == 0:
+			c.Violation("e2e:limiter-inactive:"+kind, fmt.Sprintf("%s flood of %d queries from one address with limit %d burst %d was never refused", kind, nS, rate, burst), cs)
+		case float64(sAdm) > float64(burst)+rate*win.Seconds()+1:
+			c.Violation("e2e:conservation:"+kind, fmt.Sprintf("%d %s queries of one /24 admitted in %v with limit %d burst %d", sAdm, kind, win, rate, burst), cs)
+		default:
+			c.Ev.Distinct("e2e", "stream-flood", kind)
+			c.Ev.Count("e2e_"+kind+"_flood_admitted", int64(sAdm))
+			c.Ev.Count("e2e_"+kind+"_flood_refused", int64(sRef))
+		}
+	}
 	// ---- quiet victims in other subnets, right after the flood
 	victims := []struct{ kind, ip string }{
 		{"udp", fmt.Sprintf("127.%d.2.2", oct)}, {"tcp", fmt.Sprintf("127.%d.3.3", oct)}, {"gnet", fmt.Sprintf("127.%d.4.4", oct)}, {"tls", fmt.Sprintf("127.%d.5.5", oct)},
